@@ -97,12 +97,21 @@ func SpellV(prog []item, v int) string {
 				b.WriteString("(function " + it.N + "(" + pl + "){")
 				closers = append(closers, "});")
 			case "ar":
-				if v >= 0 && len(it.Ps) == 1 && it.Ps[0].D == "" && !strings.HasPrefix(pl, "...") && (v+nblk)%2 == 0 {
-					b.WriteString("(" + pl + "=>{") // a single parameter without parentheses: recognised as a parameter only at '=>'
-				} else {
-					b.WriteString("((" + pl + ")=>{")
+				// four spellings: the arrow function as a parenthesised or a bare expression statement, a single plain parameter
+				// with or without its parentheses (then it is recognised as a parameter only at '=>')
+				bare := v >= 0 && len(it.Ps) == 1 && it.Ps[0].D == "" && !strings.HasPrefix(pl, "...") && (v+nblk)%2 == 0
+				stmt := v >= 0 && ((v+nblk)/2)%2 == 0
+				head, tail := "((", "});"
+				if stmt {
+					head, tail = "(", "};"
 				}
-				closers = append(closers, "});")
+				if bare {
+					b.WriteString(head[1:] + pl + "=>{")
+				} else {
+					b.WriteString(head + pl + ")=>{")
+				}
+				nblk++
+				closers = append(closers, tail)
 			case "blk":
 				sp := blockSpellings[0]
 				if v >= 0 {
